@@ -139,8 +139,25 @@ def returns_with_conds(func, asserts=True):
         if isinstance(e, ast.IfExp):
             emit(conds + [(t, pol) for _, t, pol in _outcome(e.test, True)], e.body, p)
             emit(conds + [(t, pol) for _, t, pol in _outcome(e.test, False)], e.orelse, p)
-        else:
-            out.append((conds, e, p))
+            return
+        # a conditional expression inside a call-free return expression (`return T[a if c else b]`) decides the same two rows
+        inner = [x for x in ast.walk(e) if isinstance(x, ast.IfExp)] if e is not None else []
+        if len(inner) == 1 and not any(isinstance(x, (ast.Call, ast.NamedExpr, ast.Yield, ast.Await)) for x in ast.walk(e)):
+            import copy as _copy
+
+            class R(ast.NodeTransformer):
+                def __init__(s, arm):
+                    s.arm = arm
+
+                def visit_IfExp(s, n):
+                    return n.body if s.arm else n.orelse
+            t = inner[0].test
+            a = ast.fix_missing_locations(R(True).visit(_copy.deepcopy(e)))
+            b = ast.fix_missing_locations(R(False).visit(_copy.deepcopy(e)))
+            emit(conds + [(c, pol) for _, c, pol in _outcome(t, True)], a, p)
+            emit(conds + [(c, pol) for _, c, pol in _outcome(t, False)], b, p)
+            return
+        out.append((conds, e, p))
     for p in func_paths(func):
         if p.end[0] == 'return':
             emit(list(p.conds(asserts)), p.end[1], p)
